@@ -365,6 +365,88 @@ fn show_v(v: &V) -> String {
     }
 }
 
+/// Values with a sub-microsecond part (legal chrono / std values; the protocol carries microseconds):
+/// the cell must be well-formed and denote the value truncated OR rounded to the microsecond.
+fn submicro_group(ctx: &Ctx, prop: &'static str, bin: bool) -> Report {
+    let n = if ctx.miri { 2 } else { ctx.n(600, 30_000) };
+    par_cases(ctx, prop, "submicro", n, |rng, i, rep| {
+        let extra = *rng.pick(&[1u32, 499, 500, 999, 501]);
+        let (v, cands, ct): (V, Vec<Sem>, ColumnType) = if rng.bool() {
+            let base = gen_datetime(rng);
+            let ns = (base.nanosecond() / 1000) * 1000 + extra;
+            let d = base.with_nanosecond(ns).unwrap();
+            let trunc = d.with_nanosecond(ns / 1000 * 1000).unwrap();
+            let round = (d + chrono::Duration::nanoseconds(500)).with_nanosecond(((d + chrono::Duration::nanoseconds(500)).nanosecond() / 1000) * 1000).unwrap();
+            (V::DateTime(d), vec![sem_of(&V::DateTime(trunc)), sem_of(&V::DateTime(round))], ColumnType::MYSQL_TYPE_DATETIME)
+        } else {
+            let base = gen_dur(rng);
+            let secs = base.as_secs() % (34 * 86_400);
+            let d = Duration::new(secs, (base.subsec_micros() * 1000 + extra).min(999_999_999));
+            let t = d.as_micros();
+            let r = (d.as_nanos() + 500) / 1000;
+            (V::Dur(d), vec![Sem::Time(t), Sem::Time(r)], ColumnType::MYSQL_TYPE_TIME)
+        };
+        let col = Column { table: "t".into(), column: "c".into(), coltype: ct, colflags: ColumnFlags::empty() };
+        let tail = Column { table: "t".into(), column: "n".into(), coltype: ColumnType::MYSQL_TYPE_LONG, colflags: ColumnFlags::empty() };
+        let cols = vec![col.clone(), tail.clone()];
+        // a second cell behind it shows whether the temporal cell consumed exactly its own bytes
+        let ops = vec![QOp::Start(0), QOp::Col(Cell { v: v.clone(), form: FORMS[rng.usize(5)] }), QOp::Col(Cell::val(V::I32(0x0A0B0C0D))), QOp::EndRow, QOp::Finish];
+        let cmds = vec![Cmd::prepare(b"p"), if bin { Cmd::execute(1, &[], false) } else { Cmd::query(b"q") }, Cmd::ping()];
+        let scripts = vec![Script::PrepOk { id: 1, params: vec![], cols: cols.clone() }, Script::Q(QProg { colsets: vec![cols.clone()], ops, on_err: OnErr::Forget })];
+        let obs = run_case(&Case::new(cmds, scripts));
+        rep.evaluations += 1;
+        if harness_panic(&obs, rep) {
+            return;
+        }
+        rep.counters.class(format!("sub-microsecond {} (+{} ns) {}", vname(&v), extra, if bin { "bin" } else { "text" }));
+        let d = || J::obj().set("value", format!("{:?}", v)).set("mode", if bin { "binary" } else { "text" }).set("outcome", obs.outcome.describe());
+        if i == 0 {
+            rep.sample(d());
+        }
+        let accepted = obs.log.cbs.iter().any(|c| c.results.iter().any(|r| r.op == "col" && r.err.is_none()));
+        if !accepted {
+            rep.counters.inc("submicro_refused");
+            return;
+        }
+        let bad = |rep: &mut Report, what: String| rep.violations.push(viol(prop, format!("{} submicro-{} {}", prop, if bin { "bin" } else { "text" }, vname(&v)), what, d()));
+        let dec = match decode_output(&obs) {
+            Ok(x) => x.2,
+            Err(e) => {
+                bad(rep, e);
+                return;
+            }
+        };
+        let Some(Resp::Parts(parts)) = dec.resps.get(3) else {
+            bad(rep, format!("a row holding {:?} does not decode: {:?}", v, dec.stop));
+            return;
+        };
+        let Some(Part::Rows { rows, .. }) = parts.first() else {
+            bad(rep, "no resultset".into());
+            return;
+        };
+        let Some(raw) = rows.first() else {
+            bad(rep, "row missing".into());
+            return;
+        };
+        let ok = if bin {
+            match wire::decode_bin_row(raw, &[(ct as u8, 0), (wire::T_LONG, 0)]) {
+                Ok(vals) => vals[1] == BinVal::Int(0x0A0B0C0D) && cands.iter().any(|s| bin_matches(&vals[0], s, ct as u8)),
+                Err(_) => false,
+            }
+        } else {
+            match wire::decode_text_row(raw, 2) {
+                Ok(cells) => text_cell_matches(&cells[1], &Sem::Int(0x0A0B0C0D)) && cands.iter().any(|s| text_cell_matches(&cells[0], s)),
+                Err(_) => false,
+            }
+        };
+        if ok {
+            rep.counters.inc("submicro_cells_compared");
+        } else {
+            bad(rep, format!("{:?} arrives neither truncated nor rounded to the microsecond (row bytes {})", v, show(raw)));
+        }
+    })
+}
+
 // ------------------------------------------------------------------------------------------------
 // C06
 
@@ -581,6 +663,8 @@ pub fn run_c06(ctx: &Ctx) -> Report {
         rep.violations.push(viol("C06", format!("C06 accepted-but-undecodable {}", vname(&v)), format!("{} was accepted but the row does not decode (outcome {})", show_v(&v), obs.outcome.describe()), d()));
     });
     rep.merge(r);
+
+    rep.merge(submicro_group(ctx, "C06", false));
 
     // ---- one cell beyond 16 MiB (thorough): framing is C04's concern
     if ctx.thorough && !ctx.miri {
@@ -1073,7 +1157,9 @@ pub fn run_c07(ctx: &Ctx) -> Report {
         }
     });
     rep.merge(r);
+    rep.merge(submicro_group(ctx, "C07", true));
     if ctx.strict() {
+        rep.require("submicro_cells_compared", 100);
         rep.require("may_pairs_accepted_and_compared", 100);
         rep.require("cells_compared", 10_000);
         rep.require("null_cells_compared", 1000);
